@@ -215,10 +215,13 @@ impl FmtAttribute {
         fields: &syn::Fields,
     ) -> Option<(Expr, syn::Ident)> {
         self.transparent_call().map(|(expr, trait_ident)| {
-            let expr = if let Some(field) = fields
-                .fmt_args_idents()
-                .find(|field| expr == *field || expr == field.unraw())
-            {
+            // Only a field named directly by the placeholder stands for the field itself. Inside
+            // the arguments the fields are bound as references to them, and this is observable
+            // with `Pointer` formatting, so an argument is passed on the same way `write!()` would.
+            let expr = if let Some(field) =
+                fields.fmt_args_idents().find(|field| {
+                    self.args.is_empty() && (expr == *field || expr == field.unraw())
+                }) {
                 field.into()
             } else {
                 parse_quote! { &(#expr) }
